@@ -381,6 +381,7 @@ class TransformedParameter(AbstractParameter, Parametric, collections.abc.Callab
             self.x = x
         self._tensor = self.transform(self.x.tensor)
         self.listeners = []
+        self._firing = False
         # the transform itself can depend on parameters and models
         # (e.g. RescaledRateTransform(rate, tree_model)): listen to them too
         for value in vars(self.transform).values():
@@ -443,8 +444,17 @@ class TransformedParameter(AbstractParameter, Parametric, collections.abc.Callab
         self.listeners.append(listener)
 
     def fire_parameter_changed(self, index=None, event=None) -> None:
-        for listener in self.listeners:
-            listener.handle_parameter_changed(self, index, event)
+        # a model used by the transform can itself listen to this parameter
+        # (a tree model and its node-height transform): do not echo its
+        # notification back to it
+        if self._firing:
+            return
+        self._firing = True
+        try:
+            for listener in self.listeners:
+                listener.handle_parameter_changed(self, index, event)
+        finally:
+            self._firing = False
 
     @property
     def sample_shape(self) -> torch.Size:
